@@ -14,6 +14,7 @@ import (
 	"strings"
 
 	"github.com/snksoft/crc"
+	"github.com/tonkeeper/tongo"
 	"github.com/tonkeeper/tongo/boc"
 	"github.com/tonkeeper/tongo/liteclient"
 	"github.com/tonkeeper/tongo/tlb"
@@ -267,6 +268,21 @@ func goAddrRoundtrip(a []string) string {
 	if id.String() != id.ToRaw() {
 		return "FAIL string"
 	}
+	// zero-fill: a raw string whose hex part lacks leading zeros denotes the same id
+	ah := hex.EncodeToString(id.Address[:])
+	lz := len(ah) - len(strings.TrimLeft(ah, "0"))
+	for _, j := range []int{1, lz / 2, lz} {
+		if j >= 1 && j <= lz {
+			sh := fmt.Sprintf("%d:%s", id.Workchain, ah[j:])
+			if r, err := ton.ParseAccountID(sh); err != nil || r != id {
+				return "FAIL short-hex " + sh
+			}
+		}
+	}
+	// the root package parser (account.go): raw and friendly forms are decided locally, no resolver involved
+	if ad, err := tongo.ParseAddress(id.ToRaw()); err != nil || ad.ID != id {
+		return "FAIL root-parse-raw " + id.ToRaw()
+	}
 	// json
 	j, err := json.Marshal(id)
 	if err != nil {
@@ -320,6 +336,9 @@ func goAddrRoundtrip(a []string) string {
 					}
 					if r, err = ton.ParseAccountID(str); err != nil || r != id {
 						return "FAIL parse-human " + str
+					}
+					if ad, err := tongo.ParseAddress(str); err != nil || ad.ID != id {
+						return "FAIL root-parse-human " + str
 					}
 					var r4 ton.AccountID
 					q, _ := json.Marshal(str)
